@@ -390,3 +390,25 @@ Proof.
   intros ideal k n m v x F R C. unfold kstep, key_parse. rewrite F, R, C.
   cbn [fst snd]. unfold m_set. cbn [m_get]. rewrite Z.eqb_refl. split; reflexivity.
 Qed.
+
+(* ---- named map types ---- *)
+
+(* a live entry always wins over a method of the same name: it reads as its
+   value, a write updates it, and Go sees the update *)
+Theorem entry_shadows_method : forall ideal methods len_id m k v0 v x,
+  m_get m k = Some v0 -> conv_elem ideal v = inl x ->
+  snd (nstep ideal methods len_id m (NM (MJGet k))) = o_num v0 /\
+  let m1 := fst (nstep ideal methods len_id m (NM (MJSet k v))) in
+  snd (nstep ideal methods len_id m1 (NM (MJGet k))) = o_num x /\
+  snd (nstep ideal methods len_id m1 (NM (MGGet k))) = o_num x.
+Proof.
+  intros ideal methods len_id m k v0 v x G C. unfold nstep. rewrite G, C. cbn [fst snd].
+  split; [reflexivity|]. unfold mstep, m_set. cbn [m_get snd]. rewrite Z.eqb_refl. split; reflexivity.
+Qed.
+
+(* otto drops a write under a method name that is not yet a key *)
+Theorem method_name_write_dropped_refuted :
+  exists methods m k v,
+    nrun false methods 0 m [NM (MJSet k v); NM (MGGet k)] = [o_ok; o_undef] /\
+    nrun true methods 0 m [NM (MJSet k v); NM (MGGet k)] = [o_ok; o_num 5].
+Proof. exists [7], [], 7, (KI64, 5). vm_compute. split; reflexivity. Qed.
